@@ -780,26 +780,7 @@ func (s *AbsfsNFS) ReadDirWithContext(ctx context.Context, dir *NFSNode) ([]*NFS
 			}
 
 			// Convert cached entries to nodes
-			var nodes []*NFSNode
-			for _, entry := range entries {
-				name := entry.Name()
-				// Skip "." and ".." entries
-				if name == "." || name == ".." {
-					continue
-				}
-				// Sanitize the path to prevent directory traversal attacks
-				entryPath, err := sanitizePath(dir.path, name)
-				if err != nil {
-					// Skip entries with invalid names
-					continue
-				}
-				node, err := s.Lookup(entryPath)
-				if err != nil {
-					continue
-				}
-				nodes = append(nodes, node)
-			}
-			return nodes, nil
+			return s.nodesFromEntries(dir, entries), nil
 		}
 
 		// Record cache miss in metrics
@@ -837,6 +818,14 @@ func (s *AbsfsNFS) ReadDirWithContext(ctx context.Context, dir *NFSNode) ([]*NFS
 		s.dirCache.Put(dir.path, entries)
 	}
 
+	return s.nodesFromEntries(dir, entries), nil
+}
+
+// nodesFromEntries turns a directory listing into nodes. Every listed name is
+// kept: an entry that cannot be looked up any more (removed or renamed by a
+// concurrent request) is described by what the listing said, so that the reply
+// is the directory as it was at one instant.
+func (s *AbsfsNFS) nodesFromEntries(dir *NFSNode, entries []os.FileInfo) []*NFSNode {
 	var nodes []*NFSNode
 	for _, entry := range entries {
 		name := entry.Name()
@@ -852,12 +841,35 @@ func (s *AbsfsNFS) ReadDirWithContext(ctx context.Context, dir *NFSNode) ([]*NFS
 		}
 		node, err := s.Lookup(entryPath)
 		if err != nil {
-			continue
+			node = s.nodeFromInfo(entryPath, entry)
 		}
 		nodes = append(nodes, node)
 	}
+	return nodes
+}
 
-	return nodes, nil
+// nodeFromInfo builds the node of a directory entry from the FileInfo of the listing.
+func (s *AbsfsNFS) nodeFromInfo(path string, info os.FileInfo) *NFSNode {
+	modTime := info.ModTime()
+	h := fnv.New64a()
+	h.Write([]byte(path))
+	attrs := &NFSAttrs{
+		Mode:   info.Mode(),
+		Size:   info.Size(),
+		FileId: h.Sum64(),
+	}
+	attrs.SetMtime(modTime)
+	attrs.SetAtime(modTime)
+	attrs.Refresh()
+	node := &NFSNode{
+		SymlinkFileSystem: s.fs,
+		path:              path,
+		attrs:             attrs,
+	}
+	if info.IsDir() {
+		node.children = make(map[string]*NFSNode)
+	}
+	return node
 }
 
 // ReadDirPlus implements the READDIRPLUS operation
